@@ -126,3 +126,26 @@ Definition mb_recv_chk (mtu : Z) (st : mb_state) (src : bytes) (pkt : bytes)
 (* reachable collector states: the bitmap has one bit per announced part *)
 Definition col_wf (c : collector) : Prop := lenN (c_bits c) = c_count c.
 Definition mb_wf (st : mb_state) : Prop := forall k c, In (k, c) st -> col_wf c.
+
+(* ---- p/p2pke/messages.go parseInitHello: the claim is the last l bytes before a
+   2-byte big-endian length trailer.  Go's checks made explicit: the slice
+   body[len-2:] and the slice body[start : len-2]. ---- *)
+Definition P_KE_IH_TAIL : N := 500.    (* body[len(body)-2:] *)
+Definition P_KE_IH_DATA : N := 501.    (* body[start : len(body)-2] *)
+
+Definition be16 (hi lo : N) : Z := Z.of_N (256 * hi + lo).
+
+(* returns the bytes handed to the protobuf decoder *)
+Definition parse_init_hello_chk (body : bytes) : result bytes :=
+  let n := Z.of_nat (length body) in
+  if (n <? 2)%Z then Err 1
+  else match slice_from body (n - 2) P_KE_IH_TAIL with
+       | Ok [hi; lo] =>
+           let l := be16 hi lo in
+           let start := (n - 2 - l)%Z in
+           if (start <? 0)%Z then Err 2
+           else if ((start <? 0) || (n - 2 <? start) || (n <? n - 2))%Z then Panic P_KE_IH_DATA   (* slice bounds *)
+           else Ok (firstn (Z.to_nat (n - 2 - start)) (skipn (Z.to_nat start) body))
+       | Ok _ => Panic P_KE_IH_TAIL
+       | Err e => Err e | Panic p => Panic p
+       end.
